@@ -1,7 +1,7 @@
 #!/usr/bin/env python3
 """run the property's check against every seeded change (applied to /repo, undone straight afterwards); writes seeded/RESULTS.json"""
 import os, sys, json, subprocess, time
-V='/verif'
+V=os.path.dirname(os.path.dirname(os.path.abspath(__file__)))
 only=sys.argv[1:] 
 res={}
 if os.path.exists(V+'/seeded/RESULTS.json'): res=json.load(open(V+'/seeded/RESULTS.json'))
